@@ -4,6 +4,8 @@ import CryoCat.Model.C17_Wedge
 import CryoCat.Model.C17_Load
 import CryoCat.Model.C17_Ext
 import CryoCat.Model.C17_Code
+import CryoCat.Model.C17_Ties
+import CryoCat.Model.C17_Num
 import CryoCat.Lemmas.C17_Mdoc
 import CryoCat.Lemmas.C17_ParseWF
 namespace CryoCat.Drv.C17
@@ -31,8 +33,11 @@ def getBool? (j : Json) (k : String) : Option Bool := (j.getObjValAs? Bool k).to
 def parseStrs (a : Array Json) : Option (List Str) := a.toList.mapM (fun j => match j with | Json.str s => some s.toList | _ => none)
 def parseInts (a : Array Json) : Option (List Int) := a.toList.mapM (fun j => (j.getInt?).toOption)
 
+/-- a number on the wire: the decimal TOKEN as it stands in the text file (parsed by the model's `parseDecimal`: the text → number step of
+the loaders is inside the model), or an exact rational `[numerator, denominator]` (numbers that never were text: array inputs) -/
 def parseRat (j : Json) : Option Rat :=
   match j with
+  | Json.str s => parseDecimal (strip s.toList)
   | Json.arr #[a, b] => match a.getInt?, b.getNat? with
     | .ok n, .ok d => if d = 0 then none else some (mkRat n d)
     | _, _ => none
@@ -45,7 +50,15 @@ def leRat (a b : Rat) : Bool := decide (a ≤ b)
 /-- one step of an operation sequence on an Mdoc object -/
 def step (m : Mdoc) (j : Json) : Option Mdoc :=
   match getStr? j "k" with
-  | some "sort" => if (getBool? j "reset").getD Gen.C17.sortResetDefault then some (sortByTilt true m) else Op.apply .sort m
+  | some "sort" =>
+    let reset := (getBool? j "reset").getD Gen.C17.sortResetDefault
+    -- `order` (sent only for tables with equal tilt angles): the arrangement the implementation chose; accepted iff it is an ascending
+    -- permutation of the table (verified checker `arrangeOk`), else the step fails
+    match getArr? j "order" with
+    | some a => match a.toList.mapM (fun x => x.getNat?.toOption) with
+      | some o => sortByTiltAs (some o) reset m
+      | none => none
+    | none => if reset then some (sortByTilt true m) else Op.apply .sort m
   | some "remove" =>
     match getArr? j "idxs" >>= parseInts with
     | some idxs =>
@@ -72,6 +85,8 @@ def handleMdoc (j : Json) : Json :=
                 -- the text of a named class outside the quantifier?
                 ("strict", Json.bool (parseMdoc lines).isSome),
                 ("why", match parsed with | some _ => Json.null | none => Json.str (whyNone lines).name),
+                ("tilt_ties", optJ (fun m => Json.bool (hasTiltTies m)) parsed),
+                ("long_float", optJ (fun m => Json.bool (hasLongFloat m)) parsed),
                 ("reset_hits_section", optJ (fun m => Json.bool (resetHitsSection m)) parsed),
                 ("text_ok", Json.bool (textOk lines)),
                 ("wf", optJ (fun m => Json.bool (wfb m)) parsed), ("wf_after", optJ (fun m => Json.bool (wfb m)) after),
